@@ -91,15 +91,18 @@ class XmlModel:
 
 
 def user_identifiers(xm):
+    """identifiers that carry no meaning of their own: not keywords, and not words the sources of the library compare names with (a function
+    called __RESET__ is an annotation by design: renaming it is not meaning preserving)"""
+    reserved = set(M.NAMES_HARVESTED)
     ids = []
     for el, kind in xm.text_nodes():
         if kind == 'name':
             t = el.text.strip()
-            if re.fullmatch(r'[A-Za-z_][A-Za-z_0-9$#]*', t) and t not in T.KEYWORDS and t not in ids:
+            if re.fullmatch(r'[A-Za-z_][A-Za-z_0-9$#]*', t) and t not in T.KEYWORDS and t not in ids and t not in reserved:
                 ids.append(t)
         else:
             for tok in T.tokens(el.text):
-                if is_user(tok) and tok[1] not in ids:
+                if is_user(tok) and tok[1] not in ids and tok[1] not in reserved:
                     ids.append(tok[1])
     return ids
 
